@@ -71,6 +71,10 @@ class _Conn(object):
             return self._tx_deliver(data)
         from vlib import refframe
         self.txbuf += data
+        if framing == 'rtu':
+            # an RTU frame has no end marker and a prefix of a frame can carry a matching CRC by coincidence: what was written
+            # is handed over when the client turns to reading (or writes again after a complete frame + pause)
+            return
         try:
             refframe.parse_one(framing, self.txbuf)
         except refframe.FrameError:
@@ -88,7 +92,27 @@ class _Conn(object):
     def _tx_flush(self):
         if self.txbuf:
             whole, self.txbuf = self.txbuf, b''
-            self._tx_deliver(whole)
+            framing = getattr(self.world.peer, 'framing', None)
+            parts = [whole]
+            if framing is not None:
+                from vlib import refframe
+                try:
+                    refframe.parse_one(framing, whole)
+                except refframe.FrameError:
+                    try:
+                        # several whole frames written without a read in between (a broadcast followed by the next request)
+                        frames = refframe.parse_many(framing, whole)
+                        parts, pos = [], 0
+                        for p_ in frames:
+                            fr_ = refframe.build(framing, p_['uid'] or 0, p_['pdu'], p_['tid'] or 0, p_['pid'] or 0)
+                            parts.append(whole[pos:pos + len(fr_)])
+                            pos += len(fr_)
+                        if pos != len(whole):
+                            parts = [whole]
+                    except refframe.FrameError:
+                        parts = [whole]
+            for part in parts:
+                self._tx_deliver(part)
 
     def _pump(self):
         now = self.world.clock.t
@@ -196,6 +220,10 @@ class FakeSocket(_Conn):
         return d, ('127.0.0.1', 502)
 
     def close(self):
+        try:
+            self._tx_flush()
+        except OSError:
+            pass
         self.closed = True
         self.world.log.append(('close', self.world.current()))
 
@@ -210,6 +238,7 @@ class FakeSerial(_Conn):
     @property
     def in_waiting(self):
         self.world.step()
+        self._tx_flush()
         self._pump()
         return len(self.rx)
 
@@ -252,6 +281,10 @@ class FakeSerial(_Conn):
         return d
 
     def close(self):
+        try:
+            self._tx_flush()
+        except OSError:
+            pass
         self.is_open = False
         self.closed = True
         self.world.log.append(('close', self.world.current()))
@@ -270,6 +303,14 @@ class World(object):
         if scheduler is not None:
             scheduler.clock = self.clock
         self._saved = []
+
+    def flush_writes(self):
+        """hand over what has been written but not read after (RTU frames and partial frames are buffered until the writer reads)"""
+        for c_ in self.conns:
+            try:
+                c_._tx_flush()
+            except OSError:
+                pass
 
     def step(self):
         self.steps += 1
@@ -365,6 +406,11 @@ class World(object):
         return self
 
     def __exit__(self, *a):
+        for c_ in self.conns:
+            try:
+                c_._tx_flush()
+            except OSError:
+                pass
         for mod, name, val in self._saved:
             setattr(mod, name, val)
         return False
